@@ -539,6 +539,7 @@ class Interpolation(object):
             x = (xl + xh) / 2.0  # Start in the middle of interval
             y = self.__call__(x)
             num_iter = 0  # Count the number of iterations
+            side = 0    # Search limit moved by the previous iteration
             while abs(y) > self._tol:
                 if num_iter >= max_iter:
                     raise ValueError(
@@ -563,9 +564,18 @@ class Interpolation(object):
                 if (y * yl) >= 0.0:
                     xl = x
                     yl = y
+                    # 'Illinois' step: If this limit is moved twice in a row,
+                    # the weight of the other one is halved. Otherwise the
+                    # linear interpolation stalls at roots of odd multiplicity
+                    if side == -1:
+                        yh /= 2.0
+                    side = -1
                 else:
                     xh = x
                     yh = y
+                    if side == 1:
+                        yl /= 2.0
+                    side = 1
             return x
         else:
             raise TypeError("Invalid input value")
